@@ -276,9 +276,34 @@ def run(ctx):
     # 3d. import / export tables -------------------------------------------------------------------
     rc, out = c.run_bin(binp, ["imports"], timeout=600)
     imp = None
+    queries = []
     for l in out.splitlines():
         if l.startswith("{"):
-            imp = json.loads(l).get("imports")
+            j = json.loads(l)
+            if "q" in j:
+                queries.append(j)
+            elif "imports" in j:
+                imp = j["imports"]
+    # the Coq tables (Wasm/Imports.v) answer the same queries
+    def ft_toks(q):
+        return "%d %s %d %s" % (len(q["p"]), " ".join(q["p"]), 1 if q["r"] else 0, q["r"])
+    qlines = []
+    for q in queries:
+        if q["q"] == "imp":
+            qlines.append("IMP %s %d %s %s %s" % (q["v"], 1 if q["dup"] else 0, q["mod"] or "-", q["name"] or "-", ft_toks(q)))
+        else:
+            qlines.append("EXP %s %s %s" % (q["v"], q["name"] or "-", ft_toks(q)))
+    rcm, mout = run_model(runner, qlines)
+    tbad = 0
+    for q, mo in zip(queries, mout + ["runner-failed"] * (len(queries) - len(mout))):
+        if mo != ("true" if q["res"] else "false"):
+            tbad += 1
+            viol({"layer": "ConcordiumAllowedImports vs Wasm/Imports.v", "query": q, "model": mo,
+                  "name": bytes.fromhex(q["name"]).decode("latin1"), "theorem": "import_only_listed / export_v0_entry / export_v1_entry"},
+                 "allowed %s table (%s): implementation says %s, the Coq table says %s for %r" % (
+                     "import" if q["q"] == "imp" else "export", q["v"], q["res"], mo, bytes.fromhex(q["name"]).decode("latin1")))
+    ctx.cov["traces_validated_against_impl"] += len(queries)
+    ctx.notes["import_export_model_queries"] = {"queries": len(queries), "mismatches": tbad}
     if imp is None:
         ctx.violation({"layer": "harness run (imports)", "output": out[-1000:]}, "import table harness failed", no_input=True)
     else:
